@@ -1,4 +1,4 @@
-CONSTANTS Budget = 1 NFuns = 1 Sim = FALSE Mode = "rules" MaxParams = 0 Rounds = 6 Focus = {}
+CONSTANTS Budget = 0 NFuns = 2 Sim = FALSE Mode = "sigs" MaxParams = 4 Rounds = 6 Focus = {}
   Masked = {"lambda_annot", "call_gen_rec", "call_rec_labels", "bool_op", "neq", "not", "neg"}
 SPECIFICATION Spec
 INVARIANTS Closed BindersTyped BindersScoped SigsWellFormed Derivable GenericsAcyclic EmitCase
